@@ -155,7 +155,7 @@ class Request(HTTPConnection):
                 return json.loads(
                     self.body.decode(self.content_type.options.get("charset", "utf8"))
                 )
-            except json.JSONDecodeError as exc:
+            except (json.JSONDecodeError, UnicodeDecodeError, LookupError) as exc:
                 raise MalformedJSON(str(exc)) from None
 
         raise UnsupportedMediaType("application/json")
